@@ -325,7 +325,10 @@ def splice_fn(text, spec=None, ret=None, loops=None, before=None, after=None, re
     lines = text.split("\n")
 
     def find_line(k, snippet):
-        hits = [i for i, l in enumerate(lines) if snippet in l]
+        if snippet.startswith("="):
+            hits = [i for i, l in enumerate(lines) if l.strip() == snippet[1:].strip()]
+        else:
+            hits = [i for i, l in enumerate(lines) if snippet in l]
         if len(hits) < k:
             raise Undecided(f"lost anchor: ghost splice point `{snippet}` #{k} in {sel}")
         return hits[k - 1]
